@@ -170,6 +170,10 @@ func runRev(toks []string) (string, string) {
 			verdict = "FAIL:merge-wrong:Merge failed: " + errg.Error()
 			return
 		}
+		if toMerge.Type().String() != toMerge.WarcHeader().Get("WARC-Type") {
+			verdict = fmt.Sprintf("FAIL:type-disagrees:after Merge the record it was called on has Type() %v and WARC-Type %q", toMerge.Type(), toMerge.WarcHeader().Get("WARC-Type"))
+			return
+		}
 		mb, _ := readBlock(merged)
 		obs += fmt.Sprintf("|mg:ok;t=%d;h=%s;b=%s;k=%s", typeNum(merged), hxs(merged.WarcHeader().String()), hxs(mb), blockKind(merged.Block()))
 		switch {
